@@ -157,6 +157,18 @@ def gen_parse_contracts(u):
 
 
 def build(u):
+    u.notes += [
+        'U-PREFS = U-PARSE + the reference invariant: every label of U-PARSE is kept (217), 71 are added; nothing is assumed that U-PARSE does not assume '
+        '(same trusted std / MaybeUninit / enumset shims, same rules); wfs / zinv is re-proved here, not assumed',
+        'rinv is STRONGER than refs_ok: an id stored outside the zones is at or above the position right after the last closed zone in front of the storing '
+        'node (refs_ok only asks: not below the NUMBER of skipped nodes, i.e. no underflow in convert_for_head); forward references (ListItem.next, patched '
+        'later) are only known to point forward - neither refs_ok nor rinv says that they do not run into a later zone',
+        'node ids that a parse function receives as an argument (the left operand of parse_rest_of_bitwise_expression / parse_rest_of_bitshift_operation) carry the '
+        'precondition left_operand_does_not_cross_a_zone, proved at both call sites (parse_addition)',
+        'inside an open zone nothing is demanded of stored ids (those nodes are skipped by build_header); the floor is kept while the zone is open and '
+        'moves behind the end marker when set_public closes it',
+        'the composition parse(); build_header() is still by matching text: both units include spec/u_hdr_spec.rs unchanged (tree_ok, refs_ok)',
+    ]
     expand_static_contracts(u)
     import os as _o
     if _o.environ.get('U_PREFS_STAGE', '') != 'B':
